@@ -279,3 +279,12 @@ def mutate(root, block, keyword, value, first_only=False):
     txt = root.render()
     block.items = saved
     return txt
+
+
+def remove_keyword(root, block, keyword):
+    """render the configuration with `keyword` removed from `block` (the keyword is then ABSENT: its default is used)"""
+    saved = list(block.items)
+    block.items = [it for it in block.items if not (it[0] == "kv" and it[1].lower() == keyword.lower())]
+    txt = root.render()
+    block.items = saved
+    return txt
